@@ -3,6 +3,7 @@ CONSTANTS
   GW = 1
   GI = 2
   RI = 4
+  Routes <- R_none
   SR <- SR_both
   INH = FALSE
   Windows <- W_rec
